@@ -446,6 +446,7 @@ type Dev struct {
 // Layout is a layout vector.
 type Layout struct {
 	CRLF   bool  `json:"crlf,omitempty"`
+	CR     bool  `json:"cr,omitempty"`     // every line ends in a bare carriage return (old Mac files)
 	Tight  bool  `json:"tight,omitempty"`  // no white space wherever two tokens may touch
 	Indent int   `json:"indent,omitempty"` // indentation scheme
 	Full   bool  `json:"full,omitempty"`   // every expression in redundant parentheses (phase 1)
@@ -563,6 +564,7 @@ type writer struct {
 	line int32
 	col  int32
 	crlf bool
+	cr   bool
 }
 
 func (w *writer) pos() Pos { return Pos{w.line, w.col} }
@@ -570,10 +572,12 @@ func (w *writer) write(s string) {
 	for i := 0; i < len(s); {
 		c := s[i]
 		if c == '\n' {
-			if w.crlf {
+			if w.crlf || w.cr {
 				w.sb.WriteByte('\r')
 			}
-			w.sb.WriteByte('\n')
+			if !w.cr {
+				w.sb.WriteByte('\n')
+			}
 			w.line++
 			w.col = 1
 			i++
@@ -594,10 +598,10 @@ func (w *writer) write(s string) {
 
 // writeRaw writes s with its newlines unchanged.
 func (w *writer) writeRaw(s string) {
-	save := w.crlf
-	w.crlf = false
+	save, saveCR := w.crlf, w.cr
+	w.crlf, w.cr = false, false
 	w.write(s)
-	w.crlf = save
+	w.crlf, w.cr = save, saveCR
 }
 
 // Text runs phase 2 and stores every node's positions in the tree.
@@ -678,7 +682,7 @@ func (r *Rendered) Text(L *Layout) (src string, ok bool) {
 		return "", false
 	}
 
-	w := &writer{line: 1, col: 1, crlf: L.CRLF}
+	w := &writer{line: 1, col: 1, crlf: L.CRLF, cr: L.CR}
 	w.sb.Grow(r.textSize + 64)
 	if cap(r.tokPos) < len(r.toks) {
 		r.tokPos = make([]Pos, len(r.toks))
